@@ -65,6 +65,7 @@ class SBytes:
     def from_array(arr, order="C"):
         c = ctx()
         c.trust("ndarray.tobytes: elements in C (row-major) order, each little-endian")
+        arr = arr.frozen()
         isz = arr.dtype.itemsize
         n = arr.size
         shape = arr.shape
